@@ -19,9 +19,13 @@ Definition pipeline_of (pkg lang : string) : pipeline :=
   else if String.eqb pkg "print_statements" then (if String.eqb lang "ts" then PSharedGenericTs print_generic_ts else PSharedGeneric print_generic_hash)
   else if String.eqb pkg "method_property" then POwnLine method_property_needles
   else if smem pkg ["collection_pipeline"; "stateless_class"] then PSharedTl tl_needles
-  else if smem pkg ["nesting"; "srp"; "performance"] then PShared
+  else if smem pkg ["nesting"; "srp"; "performance"; "dry"; "stringly_typed"] then PShared
+  else if String.eqb pkg "file_header" then PFileHeader fh_needles true            (* violations found in an existing header *)
+  else if String.eqb pkg "file_header_missing" then PFileHeader fh_needles false   (* the "no header at all" violation *)
   else PNone.
 
 (* the packages claimed to have no inline suppression at all / their own line check only *)
 Definition no_inline_support : list string := ["blocking_async"; "clone_abuse"; "cqs"; "lbyl"; "unwrap_abuse"].
 Definition own_line_check_only : list string := ["method_property"].
+(* the linters whose suppression is the shared parser and nothing else (dry: its own `# dry:` comments are C03's subject) *)
+Definition shared_only : list string := ["nesting"; "srp"; "performance"; "dry"; "stringly_typed"].
